@@ -6,6 +6,7 @@ import Driver.C04
 import Driver.C05
 import Driver.C06
 import Driver.C07
+import Driver.C07CKKS
 import Driver.C08
 import Driver.C09
 import Driver.C10
@@ -37,6 +38,7 @@ def dispatch (toks : List String) : String :=
   | "C04" :: rest => C04.handle rest
   | "C05" :: rest => C05.handle rest
   | "C06" :: rest => C06.handle rest
+  | "C07" :: "ckks" :: rest => C07CKKS.handle ("ckks" :: rest)
   | "C07" :: rest => C07.handle rest
   | "C08" :: rest => C08.handle rest
   | "C09" :: rest => C09.handle rest
